@@ -365,8 +365,15 @@ C07(pre, e, post, acc, line) ==
            insOut == RSub(insPre, insPost)
            liqIn == ROfBig(BSub(TokAmt(post, q.vault_liq), TokAmt(pre, b.vault_liq)))
            feeMint == Has(pre.mints, b.mint) /\ pre.mints[b.mint].fee_bps > 0
-           covered == RMin(bad, insPre)
-           soc == RSub(bad, RMin(bad, IF feeMint THEN liqIn ELSE insPre))
+           \* what the whole insurance vault can deliver: its balance, on a transfer-fee mint net of the fee in force (basis
+           \* points, capped at the mint's maximum fee)
+           insAmtB == TokAmt(pre, b.vault_ins)
+           feeAllB == IF feeMint THEN BMin(pre.mints[b.mint].max_fee,
+                                           BFloorDiv(BAdd(BMul(insAmtB, BOfInt(pre.mints[b.mint].fee_bps)), BOfInt(9999)), BOfInt(10000)))
+                      ELSE BZero
+           reachR == ROfBig(BSub(insAmtB, feeAllB))
+           covered == RMin(bad, reachR)
+           soc == RSub(bad, covered)
            net(x) == RAdd(RSub(RefAssets(x), RefLiabs(x)), RefFees(x))
            dNet == RSub(net(q), net(b))
            tol == RAdd(TolOp(pre, post, bn), RMul(U, RAdd(R(b.tas), RInt(2))))
@@ -399,20 +406,15 @@ C07(pre, e, post, acc, line) ==
             /\ Chk("C07", "share_value_never_negative", line, ~BIsNeg(q.asv), [bank |-> bn])
             /\ Chk("C07", "insurance_pays_first_up_to_its_balance", line,
                    \* whatever insurance could cover was taken from the insurance vault (within one token of rounding up)
-                   \* (transfer-fee mint: what the whole insurance vault could deliver net of the fee in force - basis points,
-                   \* capped at the mint's maximum fee - is what "as far as it reaches" means; the liquidity vault must receive
-                   \* that much of the bad debt, up to the token the handler rounds by)
-                   IF feeMint THEN LET m == pre.mints[b.mint]
-                                       insAmt == TokAmt(pre, b.vault_ins)
-                                       feeAll == BMin(m.max_fee, BFloorDiv(BAdd(BMul(insAmt, BOfInt(m.fee_bps)), BOfInt(9999)), BOfInt(10000)))
-                                       reach == ROfBig(BSub(insAmt, feeAll))
-                                   IN RGe(RAdd(liqIn, ROne), RMin(bad, reach)) /\ RLe(insOut, insPre)
+                   \* (transfer-fee mint: the liquidity vault must receive the covered part of the bad debt, up to the token the
+                   \* handler rounds by; the insurance vault pays that plus the fee)
+                   IF feeMint THEN RGe(RAdd(liqIn, ROne), covered) /\ RLe(liqIn, RAdd(covered, RInt(2))) /\ RLe(insOut, insPre)
                    ELSE RGe(RAdd(insOut, tol), covered) /\ RLe(insOut, RAdd(covered, RAdd(ROne, tol))) /\ liqIn = insOut,
                    [bank |-> bn, ins_out |-> insOut[1], covered_num |-> covered[1], covered_den |-> covered[2]])
             \* depositors (one common share value, shares untouched) lose exactly the uncovered amount:
             \* net claims (deposits - debt + fees) move by exactly what insurance covered (interest accrued in the same
             \* instruction conserves net claims, C06)
-            /\ (~feeMint /\ ~BIsZero(q.asv)) =>
+            /\ (~BIsZero(q.asv)) =>
                  Chk("C07", "remainder_socialized_exactly_and_pro_rata", line, RLe(RAbs(RSub(dNet, covered)), tol),
                      [bank |-> bn, soc_num |-> soc[1], soc_den |-> soc[2], dnet_num |-> dNet[1], dnet_den |-> dNet[2]])
             /\ (BIsZero(q.asv) /\ ~BIsZero(b.asv)) =>
